@@ -61,6 +61,7 @@ Eval(e, l) ==
       [] e[1] = "mul" -> Eval(e[2], l) * Eval(e[3], l)
       [] e[1] = "le"  -> IF Eval(e[2], l) <= Eval(e[3], l) THEN 1 ELSE 0
       [] e[1] = "eq"  -> IF Eval(e[2], l) = Eval(e[3], l) THEN 1 ELSE 0
+      [] e[1] = "odd" -> Eval(e[2], l) % 2
       \* call of a function VALUE: the value 1 denotes x*2+1, the value 2 denotes x+50
       [] e[1] = "app" -> IF Eval(e[2], l) = 1 THEN Eval(e[3], l) * 2 + 1 ELSE Eval(e[3], l) + 50
 
